@@ -568,13 +568,11 @@ Definition astep (s : ast) (e : aevent) : option ast :=
       | _ => None
       end
   | ANotify =>
-      match a_owed s with
-      | S o => if a_tick_free p
-               then Some (mkA (a_var s) (a_q s) (a_n s) p (a_run s) (a_notified s || a_waiting p) o
-                              (match a_var s with VFlag => true | VOrig => a_flag s end) (a_last s))
-               else None
-      | O => None
-      end
+      (* the second section of sched; also after a sched(inf, .) that added nothing (owed stays 0) *)
+      if a_tick_free p
+      then Some (mkA (a_var s) (a_q s) (a_n s) p (a_run s) (a_notified s || a_waiting p) (pred (a_owed s))
+                     (match a_var s with VFlag => true | VOrig => a_flag s end) (a_last s))
+      else None
   | AStop =>
       if a_tick_free p
       then Some (mkA (a_var s) (a_q s) (a_n s) p false (a_notified s || a_waiting p) (a_owed s) (a_flag s) (a_last s))
